@@ -345,6 +345,49 @@ func propC16(w *World, r *Report) {
 					}
 				}
 			}
+			// ... nor handed to anything that may keep or modify it: a frame parameter is read, passed on to another method of
+			// the processor, shown to the detector, written to a sink or used as the source of a copy - nothing else (handed
+			// to a recorder's StartRecording as "background", go-cptv stamps the background flag into it: the ring slot stays
+			// flagged, snapshots and later recordings carry a frame that is not the frame received)
+			var handed []string
+			aliases := map[ssa.Value]bool{p: true}
+			workv := []ssa.Value{p}
+			for len(workv) > 0 {
+				v := workv[len(workv)-1]
+				workv = workv[:len(workv)-1]
+				if v.Referrers() == nil {
+					continue
+				}
+				for _, rf := range *v.Referrers() {
+					switch u := rf.(type) {
+					case *ssa.Phi:
+						if !aliases[u] {
+							aliases[u] = true // "background = frame" on one branch: what the merged value is used for counts
+							workv = append(workv, u)
+						}
+					case *ssa.FieldAddr, *ssa.DebugRef, *ssa.BinOp:
+					case *ssa.UnOp:
+					case *ssa.Call:
+						cl := u.Call.StaticCallee()
+						switch {
+						case u.Call.IsInvoke() && u.Call.Method.Name() == "WriteFrame":
+						case cl != nil && cl.Signature.Recv() != nil && isPtrTo(cl.Signature.Recv().Type(), c.T):
+						case cl != nil && cl.Name() == "Detect":
+						case cl != nil && cl.Name() == "Copy" && len(u.Call.Args) == 2 && aliases[u.Call.Args[1]] && !aliases[u.Call.Args[0]]:
+						default:
+							// a copy helper (library Copy, wrapper or hand-written deep copy) with the frame as its SOURCE
+							if cd, cs, okc := frameCopyOf(cl, u.Call.Args, 0); okc && aliases[cs] && !aliases[cd] {
+								break
+							}
+							handed = append(handed, calleeNameCI(u)+" at "+w.InstrPos(u))
+						}
+					default:
+						handed = append(handed, fmt.Sprintf("%T at %s", rf, w.InstrPos(rf)))
+					}
+				}
+			}
+			sort.Strings(handed)
+			r.Check(len(handed) == 0, "R3", fn.Name()+": the frame parameter "+p.Name()+" (a ring slot) is only read, written to a sink, shown to the detector or passed on inside the processor", w.Pos(fn.Pos()), strings.Join(handed, " ; "))
 			name := fn.Name() + ": the frame parameter " + p.Name() + " (a ring slot) is never stored into"
 			if bad != nil {
 				r.Fail("R3", name, w.InstrPos(bad), "a store into a frame the processor was handed: after the ring has advanced this is the slot a concurrent snapshot copies", "")
